@@ -9,6 +9,7 @@ pub struct Gen<'a> {
     pub rng: &'a mut Rng,
     pub exec: &'a mut dyn FnMut(String) -> String,
     pub present: BTreeSet<i64>,
+    pub removed: Vec<i64>,
     pub serial: u64,
     pub val: u64,
     pub cap: usize,
@@ -18,7 +19,7 @@ pub struct Gen<'a> {
 
 impl<'a> Gen<'a> {
     pub fn new(rng: &'a mut Rng, exec: &'a mut dyn FnMut(String) -> String) -> Self {
-        Gen { rng, exec, present: BTreeSet::new(), serial: 0, val: 100, cap: 4, universe: 32, base: 0 }
+        Gen { rng, exec, present: BTreeSet::new(), removed: Vec::new(), serial: 0, val: 100, cap: 4, universe: 32, base: 0 }
     }
     fn run(&mut self, line: String) -> String {
         (self.exec)(line)
@@ -34,6 +35,7 @@ impl<'a> Gen<'a> {
             _ => 0,
         };
         self.present.clear();
+        self.removed.clear();
         let c = self.cap;
         self.run(format!("R new {}", c));
     }
@@ -60,7 +62,45 @@ impl<'a> Gen<'a> {
     }
     pub fn remove(&mut self, k: i64) {
         self.run(format!("R remove {}", k));
-        self.present.remove(&k);
+        if self.present.remove(&k) {
+            self.removed.push(k);
+            if self.removed.len() > 64 {
+                self.removed.remove(0);
+            }
+            // a key that has just been removed may survive as a stale separator: probe it
+            if self.rng.chance(30) {
+                match self.rng.below(4) {
+                    0 => {
+                        self.val += 1;
+                        let v = self.val;
+                        self.run(format!("R getmut {} {}", k, v));
+                    }
+                    1 => {
+                        self.run(format!("R get {}", k));
+                    }
+                    2 => {
+                        self.run(format!("R contains {}", k));
+                    }
+                    _ => {
+                        self.run(format!("R remove {}", k));
+                    }
+                }
+            }
+        }
+    }
+    /// a key for a lookup: present, formerly present (possibly a stale separator), or arbitrary
+    pub fn probe_key(&mut self) -> i64 {
+        match self.rng.below(10) {
+            0..=4 => self.present_key().unwrap_or(1),
+            5..=7 => {
+                if self.removed.is_empty() {
+                    self.some_key()
+                } else {
+                    self.removed[self.rng.below(self.removed.len() as u64) as usize]
+                }
+            }
+            _ => self.some_key(),
+        }
     }
     /// a burst of mutations with one of several key patterns
     pub fn mutate(&mut self, steps: usize, grow_bias: u64, dump_every: usize) {
@@ -104,7 +144,7 @@ impl<'a> Gen<'a> {
     }
     pub fn lookups(&mut self, n: usize) {
         for _ in 0..n {
-            let k = if self.rng.chance(60) { self.present_key().unwrap_or(1) } else { self.some_key() };
+            let k = self.probe_key();
             match self.rng.below(7) {
                 0 => self.run(format!("R get {}", k)),
                 1 => self.run(format!("R contains {}", k)),
